@@ -312,31 +312,51 @@ def r4_vertical_table(ctx):
 
 def r6_config_selection(ctx):
   R = 'C03.R6'
-  ctx.rule(R, 'a constant operand gets the weight config iff the op is a weight op; bias constness only under SRQ', floor=2)
+  ctx.rule(R, 'a constant operand gets the weight config iff the op is a weight op, with or without collected statistics (table over the registry); bias constness only under SRQ', floor=2)
   f = ctx.repo.func(f'{MMU}:_get_tensor_transformation_params_wrapper')
   ctx.instance(R)
-  ifs = [n for n in common.walk_no_nested(f.node) if isinstance(n, ast.If)
-         and any(isinstance(s, ast.Assign) and 'weight_tensor_config' in ast.unparse(s.value) for s in n.body)]
-  if not ctx.check(R, len(ifs) == 1, f.node, f, 'weight config selection', 'cannot find the single branch that selects weight_tensor_config'):
-    return
-  test = ifs[0].test
-  inl = defuse.Inliner(ctx.repo)
-  full = inl.inline(f, test)
-  txt = defuse.norm(full)
-  ctx.check(R, 'is not None' in txt and 'get_tensor_data' in txt, test, f, test,
-            'weight config must be selected only for constant tensors (tensor data present)')
-  sets_ = None
-  for n in ast.walk(test):
-    if isinstance(n, ast.Compare) and any(isinstance(o, ast.In) for o in n.ops):
-      try:
-        sets_ = ctx.ev.eval(n.comparators[0], f.module, {})
-      except Exception:  # pylint: disable=broad-except
-        sets_ = None
-  names = {getattr(x, 'name', x) for x in (sets_ or [])}
-  ctx.check(R, names == oracles.WEIGHT_OPS, test, f, test,
-            f'ops whose constant operand takes the weight config are {sorted(names)}, expected {sorted(oracles.WEIGHT_OPS)}')
-  default = [n for n in common.walk_no_nested(f.node) if isinstance(n, ast.Assign) and 'activation_tensor_config' in ast.unparse(n.value)]
-  ctx.check(R, len(default) >= 1, f.node, f, 'default config', 'default tensor config must be the activation config')
+  # Decided on values: the wrapper is run for every operator of the registry with the parameter computation replaced by
+  # a probe that records WHICH configuration it is handed. A constant operand must be quantized with the weight
+  # configuration iff the operator is a weight op (oracles.WEIGHT_OPS), every other tensor with the activation
+  # configuration - whether its statistics were collected or are computed on the spot (recipe extended after calibration).
+  from sa.ndarr import NdArr  # pylint: disable=g-import-not-at-top
+  CP = {e.name: e for e in tables.enum(ctx, 'qtyping:ComputePrecision')}
+  wcfg = tables.tensor_config(ctx, num_bits=8, symmetric=True)
+  acfg = tables.tensor_config(ctx, num_bits=16, symmetric=True)
+  cfg = tables.construct(ctx, common.OPCFG, weight_tensor_config=wcfg, activation_tensor_config=acfg, compute_precision=CP['INTEGER'])
+  MM = tables.enum_member(ctx, 'algorithm_manager:AlgorithmName', 'MIN_MAX_UNIFORM_QUANT')
+  reg = tables.registry(ctx)
+  seen = []
+  hooks = {
+      'tfl_flatbuffer_utils.get_tensor_name': lambda a_, k: 't',
+      f'{MMU}:_get_tensor_quant_params': lambda a_, k: (seen.append(k.get('tensor_quant_config', a_[2] if len(a_) > 2 else None)) or Obj('qtyping:UniformQuantParams', {
+          'num_bits': 8, 'quantized_dimension': None, 'scale': 'S', 'zero_point': 'Z', 'symmetric': True, 'quantized_data': 'DATA', 'block_size': 0, 'hadamard': None})),
+      f'{MMU}:init_tensor_min_max': lambda a_, k: {'min': 0, 'max': 1},
+      f'{MMU}:get_tensor_transformation_params': lambda a_, k: 'PARAMS',
+  }
+  n_rows = 0
+  for op in sorted(reg.get(MM, {}), key=lambda e: e.name):
+    for constant in (True, False):
+      for stats in ('collected', 'missing'):
+        if not constant and stats == 'missing':
+          continue   # a runtime tensor without statistics is refused (C10)
+        del seen[:]
+        content = NdArr((2, 2), [1, 2, 3, 4]) if constant else None
+        it = absint.Interp(ctx.repo, ctx.ev, hooks=dict(hooks, **{'tfl_flatbuffer_utils.get_tensor_data': lambda a_, k, content=content: content}))
+        op_info = Obj('qtyping:OpInfo', {'op': Obj('x:OperatorT', {'inputs': [0], 'outputs': [1]}), 'op_name': op, 'subgraph_op_index': 0, 'op_quant_config': cfg})
+        gi = Obj('qtyping:GraphInfo', {'subgraph_tensors': [], 'buffers': []})
+        outs = it.outcomes(f, [Obj('x:TensorT', {'name': b't', 'shape': [2, 2], 'buffer': 1}), True, op_info, gi, ({'t': {'min': 0, 'max': 1}} if stats == 'collected' else {}), None], copy_args=False)
+        label = f'{op.name}, {"constant" if constant else "runtime"} operand, statistics {stats}'
+        if len(outs) != 1 or outs[0].kind != 'return' or len(seen) != 1:
+          ctx.check(R, False, f.node, f, label, f'not decided: {[o.short()[:80] for o in outs]} / {len(seen)} parameter computations')
+          continue
+        n_rows += 1
+        want_w = constant and op.name in oracles.WEIGHT_OPS
+        got = 'weight' if seen[0] == wcfg and seen[0] != acfg else ('activation' if seen[0] == acfg else repr(seen[0]))
+        ctx.check(R, got == ('weight' if want_w else 'activation'), f.node, f, f'{label} -> {got} configuration',
+                  f'must be quantized with the {"weight" if want_w else "activation"} configuration: '
+                  + ('the operand is a weight' if want_w else 'it is an operand of the op\'s arithmetic, a static-range op reads every float operand in the activation width (with 16-bit activations an 8-bit constant is rejected by the runtime)'))
+  ctx.sample(R, {'rows': n_rows})
   # bias: is_constant true only under the SRQ predicate
   b = ctx.repo.func(f'{NMM}:_materialize_bias_for_conv_ops')
   ctx.instance(R)
